@@ -286,6 +286,10 @@ class BundleReader:
                 yield decompressor.decompress(line)
             except EOFError:
                 return
+        if not decompressor.eof:
+            # The compressed stream stopped before its end-of-stream marker: say
+            # so, instead of leaving the container reader at an endless EOF.
+            raise errors.BadBundle("bundle data ends prematurely")
 
     @staticmethod
     def decode_name(name):
